@@ -1937,7 +1937,7 @@ func (schema *Schema) visitJSONObject(settings *schemaValidationSettings, value 
 				}
 			}
 
-			if value[propName] != nil {
+			if _, present := value[propName]; present {
 				if reqRO {
 					me = append(me, fmt.Errorf("readOnly property %q in request", propName))
 				} else if repWO {
